@@ -3,6 +3,7 @@ import PyxisVerif.Lemmas.C09
 import PyxisVerif.Props.C09Novft
 import PyxisVerif.Props.C09Case
 import PyxisVerif.Props.C09Vft
+import PyxisVerif.Props.C09ModOrder
 /-!
 # C09 – the output is a deterministic function of the input set
 
